@@ -132,8 +132,8 @@ def chain_typing_ok(ops, ty):
 
 
 def chain_suspect(s):
-    """shapes that hit the known code-generation defect (first operator in/not in, C operand later on):
-    they can break a whole module (compiler crash, invalid C) or the process (segfault)"""
+    """shapes of a repaired code-generation defect (first operator in/not in, C operand later on; e97bddbb9): a
+    regression breaks a whole module (compiler crash, invalid C) or the process (segfault), so they are kept apart"""
     return s["ops"][0] in ("in", "notin") and any(t in C_TYPED for t in s["ty"][2:])
 
 
@@ -335,9 +335,13 @@ def strin_shapes(tier, rng):
                 out.append({"kind": "bytes", "neg": neg, "cs": cs, "xty": xty, "ctx": ctx, "xdom": [xrec("int", v=v) for v in ints]})
             out.append({"kind": "bytes", "neg": neg, "cs": cs, "xty": "c", "ctx": ctx,
                         "xdom": [xrec("int", v=v) for v in ints if 0 <= v <= 255]})
+            # a (signed) char subject keeps character labels in the switch: '\xe9' is -23
+            out.append({"kind": "bytes", "neg": neg, "cs": cs, "xty": "h", "ctx": ctx,
+                        "xdom": [xrec("int", v=v) for v in (0, 97, 98, 127, -1, -23, -128)]})
     for s in out:
         s["part"] = "strin"
-        s["cint"] = s["xty"] in ("i", "l", "c")
+        s["cint"] = s["xty"] in ("i", "l", "c", "h")
+        s["sty"] = {"i": "int", "l": "int", "c": "uchar", "h": "schar"}.get(s["xty"], "none")
     return out
 
 
@@ -353,7 +357,7 @@ def render_strin(s, name):
     lit = str_lit(s["cs"]) if s["kind"] == "str" else bytes_lit(s["cs"])
     e = "x %s %s" % ("not in" if s["neg"] else "in", lit)
     body = ("    return %s\n" % e) if s["ctx"] == "val" else ("    if %s:\n        return True\n    return False\n" % e)
-    decl = {"o": "", "u": "Py_UCS4 ", "i": "int ", "l": "long ", "c": "unsigned char "}[s["xty"]]
+    decl = {"o": "", "u": "Py_UCS4 ", "i": "int ", "l": "long ", "c": "unsigned char ", "h": "signed char "}[s["xty"]]
     return "def %s(%sx):\n%s" % (name, decl, body), "def %s(x):\n%s" % (name, body)
 
 
@@ -464,5 +468,138 @@ def functions_with_switch(c_text):
         body = c_text[m.end():end if end > 0 else len(c_text)]
         seen.add(m.group(1))
         if "switch (" in body:
+            with_sw.add(m.group(1))
+    return seen, with_sw
+
+
+# =============================================================================================
+# bool family: boolean combinations of tests of one C-integer subject (SwitchTransform on expressions)
+
+WIDE = 1000        # Compare.tla: a literal that Cython types as a Python object
+BOOL_TYPINGS = {"int": ["int", "long", "obj"], "uchar": ["uchar"], "uint": ["uint", "enum"], "ucs4": ["ucs4"]}
+BOOL_DECL = {"int": "int ", "long": "long ", "uchar": "unsigned char ", "uint": "unsigned int ", "enum": "E ", "ucs4": "Py_UCS4 ", "obj": ""}
+BOOL_CTX = {"expr": ["ret", "cond", "while"], "stmt": ["stmt"]}
+
+
+def bool_dom(fam):
+    return list(range(-128, 128)) if fam == "int" else list(range(0, 256))
+
+
+def bool_concrete(fam, v):
+    """value of the 8-bit image -> value of the real type (uint: 128..255 stand for 2**32-128..2**32-1)"""
+    return v + 2 ** 32 - 256 if (fam == "uint" and v >= 128) else v
+
+
+def bool_subject(fam, x):
+    return chr(x) if fam == "ucs4" else bool_concrete(fam, x)
+
+
+def bool_subject_arg(fam, x):
+    v = bool_subject(fam, x)
+    return v if isinstance(v, str) or abs(v) < 2 ** 53 else {"big": str(v)}
+
+
+def bool_lit(fam, typing, v, rng):
+    if fam == "ucs4":
+        if v == WIDE:
+            return '"ab"'
+        return "'%s'" % chr(v) if 32 < v < 127 else '"\\u%04x"' % v
+    if v == WIDE:
+        return str((2 ** 64 if typing == "long" else 2 ** 32) + 97)
+    if typing == "enum" and 97 <= v <= 99 and rng.random() < 0.7:
+        return "ABC"[v - 97]
+    return str(bool_concrete(fam, v))
+
+
+def bool_leaf(fam, typing, lf, rng):
+    neg = lf["op"] in ("!=", "notin")
+    if lf["kind"] == "str":
+        lit = str_lit(lf["ls"]) if fam == "ucs4" else bytes_lit(lf["ls"])
+        return "x %s %s" % ("not in" if neg else "in", lit)
+    labs = [bool_lit(fam, typing, v, rng) for v in lf["ls"]]
+    if lf["kind"] == "lit":
+        op = "!=" if neg else "=="
+        return "%s %s x" % (labs[0], op) if rng.random() < 0.2 else "x %s %s" % (op, labs[0])
+    op = "not in" if neg else "in"
+    form = rng.choice(["tuple", "tuple", "tuple", "list", "set"])
+    if form == "tuple":
+        return "x %s (%s%s)" % (op, ", ".join(labs), "," if len(labs) == 1 else "")
+    return "x %s %s%s%s" % (op, "[{"[form == "set"], ", ".join(labs), "]}"[form == "set"])
+
+
+def bool_child(fam, typing, ch, rng, top=False):
+    if ch["k"] == "leaf":
+        return bool_leaf(fam, typing, ch["a"], rng)
+    if ch["k"] == "not":
+        return "(not %s)" % bool_leaf(fam, typing, ch["a"], rng)
+    s = "%s %s %s" % (bool_leaf(fam, typing, ch["a"], rng), ch["k"], bool_leaf(fam, typing, ch["b"], rng))
+    return s if top else "(%s)" % s
+
+
+def bool_expr(fam, typing, e, rng):
+    if e["k"] == "id":
+        return bool_child(fam, typing, e["l"], rng, True)
+    if e["k"] == "not":
+        return "not %s" % bool_child(fam, typing, e["l"], rng)
+    return "%s %s %s" % (bool_child(fam, typing, e["l"], rng), e["k"], bool_child(fam, typing, e["r"], rng))
+
+
+def bool_has_str(case):
+    return any(lf["kind"] == "str" for e in case["conds"] for ch in (e["l"], e["r"]) for lf in (ch["a"], ch["b"]))
+
+
+def render_bool(case, typing, rctx, name, rng, els=True):
+    """case: published TLC record (fam, ctx, conds); rctx: ret | cond | while | stmt -> (pyx, py)"""
+    fam = case["fam"]
+    conds = [bool_expr(fam, typing, e, rng) for e in case["conds"]]
+    if rctx == "ret":
+        body = ("    return %s\n" % conds[0]) if rng.random() < 0.5 else ("    r = %s\n    return r\n" % conds[0])
+    elif rctx == "cond":
+        body = "    return ('Y' if %s else 'N')\n" % conds[0]
+    elif rctx == "while":
+        body = "    r = 0\n    while %s:\n        r += 1\n        if r == 2:\n            break\n    return r\n" % conds[0]
+    else:
+        body = "".join("    %s %s:\n        return %d\n" % ("if" if j == 0 else "elif", cnd, j + 1) for j, cnd in enumerate(conds))
+        body += "    else:\n        return 0\n" if els else "    return -1\n"
+    return "def %s(%sx):\n%s" % (name, BOOL_DECL[typing], body), "def %s(x):\n%s" % (name, body)
+
+
+def iv_set(iv):
+    out = set()
+    for s, e in zip(sorted(iv["s"]), sorted(iv["e"])):
+        out.update(range(s, e + 1))
+    return out
+
+
+def bool_tokens(rctx, els):
+    """-> function branch index (0 = no branch) -> observation token"""
+    if rctx == "ret":
+        return lambda j: "True" if j else "False"
+    if rctx == "cond":
+        return lambda j: "rY" if j else "rN"
+    if rctx == "while":
+        return lambda j: "r2" if j else "r0"
+    return lambda j: "r%d" % (j if j else (0 if els else -1))
+
+
+def bool_rows(rows, dom):
+    """published interval rows -> {x: branch index (0 = none)}"""
+    sel = dict.fromkeys(dom, 0)
+    for j, iv in enumerate(rows):
+        for x in iv_set(iv):
+            sel[x] = j + 1
+    return sel
+
+
+_RE_BFUNC = re.compile(r"^static PyObject \*__pyx_pf_\w*?_\d+(b\d+)\(.*\{\s*$", re.M)
+
+
+def bool_functions_with_switch(c_text):
+    seen, with_sw = set(), set()
+    for m in _RE_BFUNC.finditer(c_text):
+        end = c_text.find("\n}\n", m.end())
+        body = c_text[m.end():end if end > 0 else len(c_text)]
+        seen.add(m.group(1))
+        if "switch (__pyx_v_x)" in body:
             with_sw.add(m.group(1))
     return seen, with_sw
